@@ -1,5 +1,5 @@
 (* Props/C07.v — the DA-included (final) height is sound, monotone, durable and eventually reached.
-   Statements only; every proof is [exact <lemma of Proofs/IncluderProofs.v>].
+   Statements only; every proof is [exact <lemma of Proofs/IncluderProofs.v or Proofs/IncluderScanProofs.v>].
    [run b h] is a node with genesis.InitialHeight = b+1 (any b >= 0) after history [h]; a history is any list
    over: a block is committed (IAppend), the header / data with a given hash is accepted by (aggregator) or
    observed on (full node) the DA layer at a DA height (IMarkH / IMarkD — the events block/submitter.go and
@@ -9,7 +9,7 @@
    start (IRestart).  Any interleaving, any DA fault sequence (a fault is the absence of a mark), any mix of
    empty (bd = 0) and non-empty blocks, blocks sharing a data commitment. *)
 From Coq Require Import NArith List Bool.
-From Verif Require Import Model.Includer Proofs.IncluderProofs.
+From Verif Require Import Model.Includer Proofs.IncluderProofs Model.IncluderScan Proofs.IncluderScanProofs.
 Import ListNotations.
 Open Scope N_scope.
 
@@ -115,6 +115,81 @@ Theorem C07_eventually_unguarded_refuted :
 Proof. exact eventually_full_is_false. Qed.
 Print Assumptions C07_eventually_unguarded_refuted.
 
+(* ---- the full node (Model/IncluderScan.v) --------------------------------------------------------------
+   [frun b h] is a NON-AGGREGATOR with genesis.InitialHeight = b+1 after history [h]; a history is any list over:
+   trySyncNextBlock applies a block (FApply), the DA layer produces its next height with given blobs (FPost),
+   one iteration of the DA scan whose fetch attempts meet a given list of faults before being served truthfully
+   (FScan fs: GetIDs errors, Get errors after a successful listing — with or without the texts "blob: not found"
+   / "given height is from the future" —; ten failed attempts or one from-the-future answer leave the cursor
+   where it is), an includer run (FInclude), a death k effects into an includer run + start (FCrash k), a failing
+   effect + clean shutdown + start (FFault k), clean shutdown + start (FRestart), and events that do not concern
+   the node (FNop).  The mark events of Model/Includer.v are no longer inputs here: they are what the scan
+   produces from the blobs that are on the DA layer. *)
+
+(* the includer of a full node is the includer of Model/Includer.v on the translated history: every theorem above
+   holds of [nd (frun b h)] with [ftrace (finit b) h] for the history *)
+Theorem C07_fullnode_refines_full : forall (b : N) (h : list fitem),
+  nd (frun b h) = run b (ftrace (finit b) h).
+Proof. exact fullnode_refines. Qed.
+Print Assumptions C07_fullnode_refines_full.
+
+Theorem C07_fullnode_monotone_full : forall (b : N) (h h' : list fitem),
+  rep (nd (frun b h)) <= rep (nd (frun b (h ++ h'))).
+Proof. exact fullnode_monotone. Qed.
+Print Assumptions C07_fullnode_monotone_full.
+
+Theorem C07_fullnode_safety_full : forall (b : N) (h : list fitem), let s := nd (frun b h) in
+  b <= rep s <= sheight s /\
+  desc b (dputs (tr s)) (rep s) /\
+  (exists m, (m = rep s \/ m = rep s + 1) /\ finsok b (fins (tr s)) m) /\
+  asked_before (tr s) /\ persisted_before (tr s) /\
+  kd s = rep s.
+Proof. exact fullnode_safety. Qed.
+Print Assumptions C07_fullnode_safety_full.
+
+(* every height a full node reports is a stored block whose header IS on the DA layer at the DA height recorded
+   under rhb/<n>/h and whose data — unless empty — IS on the DA layer at the one recorded under rhb/<n>/d *)
+Theorem C07_fullnode_sound_full : forall (b : N) (h : list fitem) (n : N), let s := frun b h in
+  b < n <= rep (nd s) ->
+  exists x hda dda,
+    block_at (nd s) n = Some x /\
+    meta_get (meta (nd s)) (KH n) = Some hda /\ meta_get (meta (nd s)) (KT n) = Some dda /\
+    In (BH (bh x)) (content (dal s) hda) /\
+    (if bempty x then dda = hda else In (BD (bd x)) (content (dal s) dda)).
+Proof. exact fullnode_sound. Qed.
+Print Assumptions C07_fullnode_sound_full.
+
+(* the State.DAHeight a full node has stored never moves (it is 0 after every history), so every new process —
+   after a crash, a failing write or a clean shutdown — starts the DA scan at DA height 0: no blob on the DA
+   layer is out of reach of a restarted node *)
+Theorem C07_fullnode_resume_full : forall (b : N) (h : list fitem),
+  sdah (frun b h) = 0 /\
+  forall i, is_boot i = true -> cur (frun b (h ++ [i])) = 0.
+Proof. exact resume. Qed.
+Print Assumptions C07_fullnode_resume_full.
+
+(* whatever the faults, the scan never leaves a DA height behind without this process having marked every
+   genuine header and data blob of that height *)
+Theorem C07_fullnode_scan_never_skips_full : forall (b : N) (h : list fitem) (d id : N), let s := frun b h in
+  d < cur s ->
+  (In (BH id) (content (dal s) d) -> mget (hm (nd s)) id <> None) /\
+  (In (BD id) (content (dal s) d) -> mget (dm (nd s)) id <> None).
+Proof. exact scan_never_skips. Qed.
+Print Assumptions C07_fullnode_scan_never_skips_full.
+
+(* C07 liveness on a full node, unguarded: after ANY history (crashes and restarts at any point included), if
+   both parts of every block up to n are on the DA layer, then any further scan iterations — under any fault
+   sequence, as long as enough of them ([n_served]: fewer than ten faults, none "from the future") are served to
+   reach the tip of the DA layer — followed by one includer run make the node report at least n. *)
+Theorem C07_eventually_fullnode_full : forall (b : N) (h : list fitem) (n : N) (fss : list (list fault)),
+  let s := frun b h in
+  n <= sheight (nd s) ->
+  forallb (on_da (dal s)) (firstn (N.to_nat (n - b)) (chain (nd s))) = true ->
+  top s + 1 <= cur s + n_served fss ->
+  n <= rep (nd (frun b (h ++ map FScan fss ++ [FInclude]))).
+Proof. exact fullnode_eventually. Qed.
+Print Assumptions C07_eventually_fullnode_full.
+
 (* ---- non-vacuity ---------------------------------------------------------------------------------- *)
 Definition b1 := {| bh := 1; bd := 0 |}.       (* empty block *)
 Definition b2 := {| bh := 2; bd := 7 |}.
@@ -172,3 +247,36 @@ Example before_the_repair_includer_stuck :
   rep (run_from (init_before_the_repair 2) h) = 0 /\ sheight (run_from (init_before_the_repair 2) h) = 4 /\
   rep (run 2 h) = 4 /\ blocks_marked_ever 2 h 4 = true.
 Proof. vm_compute. repeat split; reflexivity. Qed.
+
+(* ---- full node ------------------------------------------------------------------------------------------ *)
+(* header of block 1 at DA height 1, its data (with a junk blob) at DA height 2; the scan reaches height 1
+   through a Get that fails once with "blob: not found"; the block is applied when its data is seen; the scan of
+   height 2 meets two more faults; the process dies before the includer ran.  The new process starts the scan at
+   DA height 0 with no marks; both parts of block 1 are on the DA layer; three served iterations (one of them
+   after a from-the-future answer and one after ten failed attempts, which do not move the cursor) and one
+   includer run report 1 with the DA heights 1 and 2 recorded. *)
+Definition bf1 := {| bh := 1; bd := 7 |}.
+Definition ex_full : list fitem :=
+  [ FPost [BH 1]; FPost [BD 7; BJ]; FScan []; FScan [FGet true false]; FScan [FList false; FGet false false];
+    FApply bf1; FCrash 0 ].
+Definition ex_full_scans : list (list fault) :=
+  [ []; [FList true]; [FGet true false]; repeat (FList false) 10; [FGet false false; FGet true false] ].
+
+Example ex_full_run :
+  let s := frun 0 ex_full in
+  (rep (nd s), sheight (nd s), cur s, sdah s, top s, mget (hm (nd s)) 1, mget (dm (nd s)) 7) = (0, 1, 0, 0, 2, None, None) /\
+  cur (frun 0 (ex_full ++ [FScan []; FScan [FList true]; FScan (repeat (FList false) 10)])) = 1 /\
+  forallb (on_da (dal s)) (firstn 1 (chain (nd s))) = true /\
+  top s + 1 <= cur s + n_served ex_full_scans /\
+  let s' := frun 0 (ex_full ++ map FScan ex_full_scans ++ [FInclude]) in
+  (rep (nd s'), cur s', meta_get (meta (nd s')) (KH 1), meta_get (meta (nd s')) (KT 1)) = (1, 3, Some 1, Some 2).
+Proof. vm_compute. repeat split; try reflexivity; discriminate. Qed.
+
+(* what the theorems exclude: a new process that resumed the scan at the DA height of the event that completed
+   block 1 (cursor 2 instead of 0) would re-observe the data only and never report block 1 *)
+Example resuming_above_a_needed_height_would_be_stuck :
+  let s := frun 0 ex_full in
+  let s2 := {| nd := nd s; cur := 2; sdah := 2; dal := dal s |} in
+  let s' := frun_from s2 (map FScan [[]; []; []] ++ [FInclude; FRestart; FScan []; FScan []; FInclude]) in
+  (rep (nd s'), cur s', mget (hm (nd s')) 1, mget (dm (nd s')) 7) = (0, 3, None, Some 2).
+Proof. vm_compute. reflexivity. Qed.
